@@ -127,16 +127,27 @@ def roundUnit (n : Nat) : Rat := (64 * (n : Rat)) / ((2^53 : Nat) : Rat)
     Lawson–Hanson (`lh`, SuiteSparseQR: backward error relative to the *column* norms, not invariant under scaling):
       `tolS + 64·max(n,rows)·2⁻⁵³·Σ_i(Σ_j |A|_ij x_j + |b|_i)`  for every `i`, where for the least-squares form
       `|A| = |M|ᵀ|M|`, `|b| = |M|ᵀ|v|` (the gradient `Mᵀ(Mx − v)` cancels against `‖M‖‖v‖`, not against `|Mᵀv|`). -/
-def tolVec (s : Sys) (lh : Bool) (tolS negpart : Rat) (xp : Vec) : Array Rat :=
+def tolVec (s : Sys) (lh : Bool) (tolS negpart : Rat) (xp : Vec) (mags : Array Rat) : Array Rat :=
   if lh then
     let mag := (sumTo s.n fun i => (sumTo s.n fun j => s.Aabs.getD (i * s.n + j) 0 * xp j) + s.babs.getD i 0)
     let u := roundUnit (if s.n < s.rows then s.rows else s.n)
     ((List.range s.n).map fun i =>
       tolS + negpart * (sumTo s.n fun j => ratAbs (s.mat i j)) + u * mag).toArray
   else
+  -- `mags[i] = Σ_j |A_ij| x_j + |b_i|` (computed once by `rowPass`); the row sum `Σ_j|A_ij|` is only needed when some
+  -- component was negative
   ((List.range s.n).map fun i =>
-    tolS + negpart * (sumTo s.n fun j => ratAbs (s.mat i j))
-      + roundUnit s.n * ((sumTo s.n fun j => ratAbs (s.mat i j) * xp j) + ratAbs (s.vec i))).toArray
+    tolS + (if negpart = 0 then 0 else negpart * (sumTo s.n fun j => ratAbs (s.mat i j)))
+      + roundUnit s.n * mags.getD i 0).toArray
+
+/-- one pass over row `i` of `A`: `(Σ_j A_ij x_j, Σ_j |A_ij| x_j)` for `x ≥ 0` (the product is formed once and terms
+    with `x_j = 0` are skipped: the dense systems of several hundred unknowns make the driver's cost quadratic) -/
+def rowPass (s : Sys) (xpA : Array Rat) (i : Nat) : Rat × Rat :=
+  (List.range s.n).foldl (fun (acc : Rat × Rat) j =>
+    let xj := xpA.getD j 0
+    if xj = 0 then acc else
+    let p := s.A.getD (i * s.n + j) 0 * xj
+    (acc.1 + p, acc.2 + ratAbs p)) (0, 0)
 
 def checkX (s : Sys) (lh : Bool) (tolS : Rat) (xs : Array Rat) : String :=
   let n := s.n
@@ -146,14 +157,17 @@ def checkX (s : Sys) (lh : Bool) (tolS : Rat) (xs : Array Rat) : String :=
   let negpart := (List.range n).foldl (fun m i => ratMax m (-(x i))) 0
   let xpA : Array Rat := xs.map fun v => if v < 0 then 0 else v
   let xp := vecOf xpA
-  let tolA := tolVec s lh tolS negpart xp
+  let rp : Array (Rat × Rat) := ((List.range n).map (rowPass s xpA)).toArray
+  -- gradient `A xp − b` and magnitude `|A| xp + |b|` (reports and tolerance; the decision is `kktCheck` below)
+  let gA : Array Rat := ((List.range n).map fun i => (rp.getD i (0, 0)).1 - b i).toArray
+  let mags : Array Rat := ((List.range n).map fun i => (rp.getD i (0, 0)).2 + ratAbs (b i)).toArray
+  let tolA := tolVec s lh tolS negpart xp mags
   let tol := vecOf tolA
   let kkt := kktCheck n A b xp tol
-  let gA : Array Rat := ((List.range n).map (grad n A b xp)).toArray
   let g := vecOf gA
   let need := (List.range n).foldl (fun m i => ratMax m (ratMax (-(g i)) (if 0 < xp i then g i else 0))) 0
   let rel := (List.range n).foldl (fun m i =>
-      let mag := (sumTo n fun j => ratAbs (A i j) * xp j) + ratAbs (b i)
+      let mag := mags.getD i 0
       let v := ratMax (-(g i)) (if 0 < xp i then g i else 0)
       if mag = 0 then m else ratMax m (v / mag)) 0
   let tolmax := (List.range n).foldl (fun m i => ratMax m (tol i)) 0
